@@ -45,6 +45,18 @@ def windows(b, n=4):
     return set(b[i:i + n] for i in range(len(b) - n + 1))
 
 
+def marked_windows(b, needles, n=4):
+    """the n-byte windows of b that overlap an occurrence of one of the needles (the random payload of a secret
+    line: windows made only of keywords such as `REM ` are not specific to the program)"""
+    pos = set()
+    for nd in needles:
+        i = b.find(nd)
+        while i >= 0:
+            pos.update(range(i, i + len(nd)))
+            i = b.find(nd, i + 1)
+    return set(b[i:i + n] for i in range(len(b) - n + 1) if any(j in pos for j in range(i, i + n)))
+
+
 class Secret(object):
     """The generated program of a case, its files and its secret windows."""
 
@@ -53,9 +65,15 @@ class Secret(object):
         self.lines = []          # (number, text, role)
         t = [tok(rng) for _ in range(8)]
         target = 7000 + rng.randrange(100, 999)
+        number = rng.randrange(10000, 32767)
+        self.needles = []
+        for x in t:
+            self.needles += [x.encode(), x.upper().encode()]
+        self.needles += [b'%d' % target, b'%d' % number, bytes([target % 256, target // 256]),
+                         bytes([number % 256, number // 256])]
         secret = [
             (100, 'DATA %s,"%s"' % (t[0], t[1]), 2),
-            (110, 'IF Q9=%d THEN %d' % (rng.randrange(10000, 99999), target), 3),
+            (110, 'IF Q9=%d THEN %d' % (number, target), 3),
             (120, 'S9$="%s":REM %s %s' % (t[2], t[3], t[4]), 4),
         ]
         if kind == 'r':
@@ -65,13 +83,15 @@ class Secret(object):
                 self.lines.append((1000 + 10 * i, 'K%%=%d:X%%(%d)=1:%s' % (i + 1, i + 1, text), 11))
                 self.lines.append((1005 + 10 * i, 'DEF SEG:F%%(%d)=PEEK(1450)' % (i + 1), 11))
             self.lines.append((8000, 'END', 10))
-            self.lines += [(n_ + 8000, x, r) for n_, x, r in secret]
+            # the secret lines come first (lines 1-3; executing them does nothing visible) so that a fixed
+            # 120-byte range from the start of the code covers them and never reaches variable memory
+            self.lines += [(i_ + 1, x, r) for i_, (n_, x, r) in enumerate(secret)]
             self.lines.append((9000, 'E%(K%)=ERR:RESUME NEXT', 14))
         else:
             if stx:
                 self.lines.append((5, '%s %s' % (t[5], t[6]), 1))
-            self.lines += [(10, 'END', 10), (20, 'REM pokehere', 11), (30, 'REM scaffold30', 12),
-                           (40, 'REM scaffold40', 13)]
+            self.lines += [(10, 'END', 10), (20, 'REM -pokehere', 11), (30, 'REM -scaffold30', 12),
+                           (40, 'REM -scaffold40', 13)]
             self.lines += secret
             self.lines.append((9000, 'E%=ERR:RESUME NEXT', 14))
         self.lines.sort()
@@ -90,10 +110,11 @@ class Secret(object):
             nums = sorted(k for k in prog.line_numbers if k != 65536)
             for n, x, role in self.lines:
                 if role in SECRET_ROLES:
-                    w |= windows(x.encode('latin1'))
+                    w |= marked_windows(x.encode('latin1'), self.needles)
+                    w |= marked_windows(x.upper().encode('latin1'), self.needles)
                     pos = prog.line_numbers[n]
                     nxt = min(p for p in prog.line_numbers.values() if p > pos)
-                    w |= windows(code[pos + 5:nxt])
+                    w |= marked_windows(code[pos + 5:nxt], self.needles)
             s.execute('SAVE "P",P')
             s.execute('SAVE "Q"')
             s.execute('NEW')
@@ -101,7 +122,7 @@ class Secret(object):
             s.execute('SAVE "U"')
         self.win = w
         with open(os.path.join(d, 'MA.BAS'), 'wb') as f:
-            f.write(b'8 REM merged\r\n\x1a')
+            f.write(b'8 REM -merged\r\n\x1a')
         with open(os.path.join(d, 'ME.BAS'), 'wb') as f:
             f.write(b'\x1a')
 
@@ -123,14 +144,14 @@ def benign_windows():
             w |= windows(error.BASICError(n).get_message(9000))
         except Exception:
             pass
-    for x in (b'Ok\xff\r\n', b'Undefined line ', b' in 110\r\n', b'Break in '):
+    for x in (b'Ok\xff\r\n', b'Undefined line ', b' in 110\r\n', b'Break in ', b' 254 \r\n', b' 0 \r\n'):
         w |= windows(x)
     return w
 
 
 def op_text(name, arg, i, sec, run=False):
     """BASIC text of a statement"""
-    cs, size = sec.cs, sec.size + 8
+    cs, size = sec.cs, (120 if run else sec.size + 8)
     if name == 'list':
         return ['LIST', 'LIST 1-', 'LIST ,"L%d"' % i, 'LIST -65529'][arg]
     if name == 'llist':
@@ -166,7 +187,7 @@ def op_text(name, arg, i, sec, run=False):
     if name == 'bloadother':
         return 'BLOAD "BO"'
     if name == 'storenew':
-        return '7 REM user'
+        return '7 REM -user'
     if name == 'storedel':
         return '%d' % LINE_OF[arg]
     if name == 'merge':
@@ -416,6 +437,7 @@ class C16(core.Check):
 
     # ---------------------------------------------------------------- implementation
     _benign = None
+    _probe = None
 
     def benign(self):
         if C16._benign is None:
@@ -530,15 +552,16 @@ class C16(core.Check):
         d = common.tmpdir('c16')
         try:
             ops = case['ops']
-            probe = Secret('r', case['seed'], 0, ['REM'] * len(ops))
-            probe_d = common.tmpdir('c16p')
-            try:
-                probe.build(probe_d)
-            finally:
-                common.rmtree(probe_d)
-            # statement texts need the code size: build twice (the size estimate only widens the PEEK range)
-            probe.size += 60 * len(ops)
-            texts = [op_text(n, a, i, probe, run=True) for i, (n, a) in enumerate(ops)]
+            if C16._probe is None:
+                # the statement texts need the address of the code area (a constant of the memory layout)
+                probe = Secret('r', 0, 0, ['REM'])
+                probe_d = common.tmpdir('c16p')
+                try:
+                    probe.build(probe_d)
+                finally:
+                    common.rmtree(probe_d)
+                C16._probe = probe
+            texts = [op_text(n, a, i, C16._probe, run=True) for i, (n, a) in enumerate(ops)]
             sec = Secret('r', case['seed'], 0, texts)
             sec.build(d)
             s, rec = self.session(d, case['hide'])
@@ -581,9 +604,9 @@ class C16(core.Check):
             elif name == 'editprompt':
                 keys += b'RUN\r\r'
             elif name == 'autoline':
-                keys += b'AUTO 7\r' + (b'\r' if arg else b'REM user\r') + b'\x03'
+                keys += b'AUTO 7\r' + (b'\r' if arg else b'REM -user\r') + b'\x03'
             elif name == 'storenew':
-                keys += b'7 REM user\r'
+                keys += b'7 REM -user\r'
             elif name == 'list':
                 keys += b'LIST\r'
         return keys + b'SYSTEM\r'
@@ -690,6 +713,8 @@ class C16(core.Check):
     # ---------------------------------------------------------------- known findings
     def known_match(self, finding, case, out):
         cls = (finding.get('witness') or {}).get('statement')
+        if out is None:
+            return False
         bad = self.findings(case, out)
         if not bad or case['k'] != 'd':
             return False
